@@ -276,7 +276,7 @@ parser! {
 
     // B.1.2.3.1 Duration
     // dt_sep defines case insensitive separators between parts of duration
-    rule dt_sep(val: &str) -> &'input Token = [t if t.token_type == TokenType::Identifier && t.text.as_str() == val]
+    rule dt_sep(val: &str) -> &'input Token = [t if t.token_type == TokenType::Identifier && t.text.eq_ignore_ascii_case(val)]
 
     pub rule duration() -> DurationLiteral = start:position!() (tok(TokenType::Time) / dt_sep("T") / dt_sep("t")) tok(TokenType::Hash) s:(tok(TokenType::Minus))? i:interval() end:position!() {
       let span = SourceSpan::range(start, end);
